@@ -173,7 +173,7 @@ def main():
         try:
             for e in edits:
                 e(root)
-            env = dict(os.environ, VERIF_REPO=root)
+            env = dict(os.environ, VERIF_REPO=root, CKC_EVIDENCE_DIR=os.path.join(root, "_evidence"))
             o = subprocess.run([os.path.join(ROOT, "check"), prop], cwd=ROOT, env=env, capture_output=True, text=True)
             rules = re.findall(r"rule=(\S+) instance=(.*)", o.stdout)
             compile_fail = "does not compile" in (o.stdout + o.stderr)
